@@ -101,6 +101,15 @@ UNITS['U19'] = dict(
                  'FilterNullable*: the output null map has no stray bits beyond the current output length (established by init / previous calls; stated as requires and re-established as ensures)'],
     not_covered=['NonzeroIndices (generic numeric conversions U::from(index) + offset)', 'combine_null_maps', 'LIKE / regex filters'])
 
+UNITS['U26'] = dict(
+    kind='verus', tpl='contracts/U26_sort_by.vx', timeout_s=300,
+    title='sort_by.rs: SortBy::execute / SortByNullable::execute sort statements (slices) against assumed contracts of std sort_by (stable) and sort_unstable_by (not stable): sorted permutation in ORDER BY order with NULLs last (first when descending); ties keep their previous order when `stable` is set',
+    assumptions=['A-std-sort: <[T]>::sort_by returns a stable sorted permutation, <[T]>::sort_unstable_by a sorted permutation (assume_specification, from the std documentation; comparator consistent with a total order)',
+                 'R6: scratchpad bindings (ranking, present, indices) and self.stable lifted to parameters',
+                 'R17: the comparator closures get parameter types and a requires/ensures annotation (rows in range; result == row_ord); closure bodies are the real ones',
+                 'trait Comparator: ordering() == spec ord(), is_less_than() == spec asc(); the per-type impls are covered by U12k'],
+    not_covered=['NormalFormQuery::run: which sorts are requested as stable and in which key order', 'TopN', 'consistency of ord() with a total order (U12k per type)'])
+
 UNITS['U03'] = dict(
     kind='verus', tpl='contracts/U03_stringpack.vx',
     title='stringpack.rs: PackedStrings::push, StringPackerIterator::next, PackedBytesIterator::{has_more,next}, IndexedPackedStrings::{push,len} + round-trip lemma',
@@ -391,7 +400,7 @@ PROPS = {
                 level_note='grouping-key construction, hash-map grouping and the final pass are not covered',
                 technique='contract-based deductive verification (Verus + Kani complete harnesses) of extracted functions',
                 assumptions=[], not_covered=['hashmap_grouping*', 'try_bitpacking (float log2)']),
-    'C05': dict(level='proof', units=['U10', 'U11', 'U12k', 'U13k'],
+    'C05': dict(level='proof', units=['U10', 'U11', 'U12k', 'U13k', 'U26'],
                 level_text='Verus proof of merge (sorted, stable, limit), complete Kani proofs of integer/float comparators and LIMIT/OFFSET window arithmetic; string comparators bounded',
                 level_note='std sort_by/sort_unstable_by, the top-n driver and the planner choice between sort and top-n are not covered',
                 technique='contract-based deductive verification (Verus + Kani) of extracted functions',
